@@ -1169,10 +1169,12 @@ func (m *Machine) Remove(states S, args A) Result {
 
 	// (only while a Remove is running: an Add or a Set in flight may be about to
 	// activate one of them; and only when they were inactive before it started,
-	// what it deactivates itself has not been reported to the tracers yet)
+	// what it deactivates itself has not been reported to the tracers yet; a
+	// completed one is the previous transition, the next mutation has already
+	// left the queue)
 	if t := m.Transition(); lenQueue == 0 && t != nil &&
-		t.Mutation.Type == MutationRemove && !m.Any(statesAny...) &&
-		!t.TimeBefore.Any1(m.Index(states)...) {
+		!t.IsCompleted.Load() && t.Mutation.Type == MutationRemove &&
+		!m.Any(statesAny...) && !t.TimeBefore.Any1(m.Index(states)...) {
 
 		m.queueMx.RUnlock()
 		return Executed
@@ -3413,10 +3415,12 @@ func (m *Machine) EvRemove(event *Event, states S, args A) Result {
 
 	// (only while a Remove is running: an Add or a Set in flight may be about to
 	// activate one of them; and only when they were inactive before it started,
-	// what it deactivates itself has not been reported to the tracers yet)
+	// what it deactivates itself has not been reported to the tracers yet; a
+	// completed one is the previous transition, the next mutation has already
+	// left the queue)
 	if t := m.Transition(); lenQueue == 0 && t != nil &&
-		t.Mutation.Type == MutationRemove && !m.Any(statesAny...) &&
-		!t.TimeBefore.Any1(m.Index(states)...) {
+		!t.IsCompleted.Load() && t.Mutation.Type == MutationRemove &&
+		!m.Any(statesAny...) && !t.TimeBefore.Any1(m.Index(states)...) {
 
 		m.queueMx.RUnlock()
 		return Executed
